@@ -1,33 +1,169 @@
 (* C12 — correspondence / property evaluation on histories observed on the
    implementation.  Executable only. *)
 From Coq Require Import List ZArith Bool.
-From GZ Require Export Lib.CheckLib C12.Model C12.Concrete.
+From GZ Require Export Lib.CheckLib C12.Model C12.Concrete C12.Api C12.Client.
+From GZ Require C16.ModelW.
 Import ListNotations.
 Open Scope Z_scope.
 
-Record case := mkCase
-  { kn : Z; kint : Z; cops : list op;
-    cobs : list fired  (* per operation: callbacks observed on the implementation *) }.
+Module CW := GZ.C16.ModelW.
+Module CM := GZ.C16.Model.
+
+Inductive case :=
+(* the wheel through its public API: per call, the callbacks that ran and the result *)
+| CWheel (n i : Z) (ops : list aop) (obs : list (fired * res))
+(* NewTimingWheel(i, n, execute?) accepted?; then SetTimer, Stop, SetTimer *)
+| CNew (n i : Z) (has_execute accepted : bool) (r1 r2 : res)
+(* collection.Cache(limit) on its wheel (n slots, interval i): per cache operation,
+   what the wheel was asked, what it ran, what the cache holds *)
+| CCache (limit n i : Z) (h : list (kop * kobs))
+(* another client (the cache cleaner): requests and callbacks per driver step, and the
+   ids of the tasks the cleaner invoked during the step *)
+| CTrace (n i : Z) (segs : list (list op * fired * list Z)).
 
 Definition canon (fs : list fired) : list fired := map sort_pairs fs.
 
-(* the model reproduces exactly what the implementation did *)
-Definition agrees (c : case) : bool :=
-  list_eqb pairs_eqb (canon (run (init (kn c) (kint c)) (cops c))) (canon (cobs c))
-  && list_eqb pairs_eqb (canon (crun (cinit (kn c) (kint c)) (cops c))) (canon (cobs c)).
+Definition res_eqb (a b : res) : bool :=
+  match a, b with
+  | ROk, ROk | RErrArgument, RErrArgument | RErrClosed, RErrClosed | RPanic, RPanic => true
+  | _, _ => false
+  end.
 
-(* the property's quantifier: delays of at least one interval *)
-Definition op_in_scope (i : Z) (o : op) : bool :=
+Definition fr_eqb (a b : fired * res) : bool :=
+  pairs_eqb (sort_pairs (fst a)) (sort_pairs (fst b)) && res_eqb (snd a) (snd b).
+
+(* the observations of the calls that reached the run loop *)
+Fixpoint reached (ops : list aop) (obs : list (fired * res)) : list fired :=
+  match ops, obs with
+  | AStop :: _, _ => []
+  | o :: ops', fr :: obs' =>
+    match request o with
+    | Some _ => fst fr :: reached ops' obs'
+    | None => reached ops' obs'
+    end
+  | _, _ => []
+  end.
+
+(* ---- the cache on the composed model of C16/ModelW.v ---- *)
+
+Definition kret_of (r : CM.obs) : kret :=
+  match r with
+  | CM.OOpt o => RetGet o
+  | CM.OTake v l => RetTake v l
+  | _ => RetNone
+  end.
+
+Definition kret_eqb (a b : kret) : bool :=
+  match a, b with
+  | RetNone, RetNone => true
+  | RetGet x, RetGet y => opt_eqb Z.eqb x y
+  | RetTake x l, RetTake y l' => opt_eqb Z.eqb x y && Bool.eqb l l'
+  | _, _ => false
+  end.
+
+(* the jittered expiry lies within 5% of the requested one (and 100 ns for rounding) *)
+Definition jitter_ok (d d' : Z) : bool :=
+  (95 * d - 10000 <=? 100 * d') && (100 * d' <=? 105 * d + 10000).
+
+Definition set_delay (k : Z) (b : kobs) : Z :=
+  match last_set k (otrace b) None with Some (_, d') => d' | None => 0 end.
+
+Definition xop_of (o : kop) (b : kobs) : option CW.xop :=
   match o with
-  | OSet _ _ d | OMove _ d => i <=? d
+  | KSet k v _ => Some (CW.XSet k v (set_delay k b))
+  | KGet k => Some (CW.XGet k)
+  | KDel k => Some (CW.XDel k)
+  | KTake k f _ => Some (CW.XTake k f (set_delay k b))
+  | KTick => Some CW.XTick
+  | KDrain => None
+  end.
+
+Definition requested_ok (o : kop) (b : kobs) : bool :=
+  match o with
+  | KSet k _ d | KTake k _ d =>
+    match last_set k (otrace b) None with Some (_, d') => jitter_ok d d' | None => true end
   | _ => true
   end.
 
-(* the property, on the implementation's own observations: they are the firings
-   of the "key |-> remaining ticks" specification *)
-Definition prop_ok (c : case) : bool :=
-  if forallb (op_in_scope (kint c)) (cops c) then
-    list_eqb pairs_eqb (canon (sp_run (kint c) [] (cops c))) (canon (cobs c))
-  else true.
+(* s : composed model; w, c : flat and pointer-level wheel models fed with the observed requests *)
+Fixpoint cache_agrees (s : CW.cachew) (w : state) (c : cstate) (h : list (kop * kobs)) : bool :=
+  match h with
+  | [] => true
+  | (o, b) :: h' =>
+    let fw := concat (run w (otrace b)) in
+    let fc := concat (crun c (otrace b)) in
+    let w1 := final w (otrace b) in
+    let c1 := fold_left (fun c o => fst (cstep c o)) (otrace b) c in
+    pairs_eqb (sort_pairs fw) (sort_pairs (ofired b))
+    && pairs_eqb (sort_pairs fc) (sort_pairs (ofired b))
+    && requested_ok o b
+    && match xop_of o b with
+       | Some x =>
+         let '(s1, r, ex) := CW.cw_step s x in
+         kret_eqb (kret_of r) (oret b)
+         && zs_eqb (sort_z ex) (sort_z (map fst (ofired b)))
+         && zs_eqb (sort_z (map fst (CM.cdata (CW.cwc s1)))) (sort_z (okeys b))
+         && spec_eqb (pending_map (CW.cww s1)) (pending_map w1)
+         && cache_agrees s1 w1 c1 h'
+       | None =>
+         (* Drain: everything the composed model's wheel still holds *)
+         pairs_eqb (sort_pairs (snd (drain_all (CW.cww s)))) (sort_pairs (ofired b))
+       end
+  end.
 
-Definition model_obs (c : case) : list fired := canon (run (init (kn c) (kint c)) (cops c)).
+Definition aop_in_scope (i : Z) (o : aop) : bool :=
+  match o with
+  | ASet _ _ d | AMove _ d => (d <=? 0) || (i <=? d)
+  | _ => true
+  end.
+
+Definition segs_in_scope (i : Z) (segs : list (list op * fired * list Z)) : bool :=
+  forallb (fun s => trace_in_scope i (fst (fst s))) segs.
+
+(* the model reproduces exactly what the implementation did *)
+Definition agrees (c : case) : bool :=
+  match c with
+  | CWheel n i ops obs =>
+    list_eqb fr_eqb (arun (ainit n i) ops) obs
+    && list_eqb pairs_eqb (canon (crun (cinit n i) (requests ops))) (canon (reached ops obs))
+  | CNew n i e acc r1 r2 =>
+    Bool.eqb (new_accepts n i e) acc
+    && (negb acc || (res_eqb r1 ROk && res_eqb r2 RErrClosed))
+  | CCache limit n i h =>
+    cache_agrees (CW.cw_new limit n i false) (init n i) (cinit n i) h
+  | CTrace n i segs =>
+    let t := concat (map (fun s => fst (fst s)) segs) in
+    list_eqb pairs_eqb (canon (run (init n i) t)) (canon (crun (cinit n i) t))
+    && trace_ok i [] (map fst segs)
+  end.
+
+(* the property, on the implementation's own observations *)
+Definition prop_ok (c : case) : bool :=
+  match c with
+  | CWheel n i ops obs =>
+    (* delays of at least one interval (or rejected): the calls return what the API over
+       the due-map returns and run its callbacks *)
+    if forallb (aop_in_scope i) ops
+    then list_eqb fr_eqb (asp_run i (false, []) ops) obs
+    else true
+  | CNew n i e acc r1 r2 =>
+    (* the constructor accepts exactly the configurations the theorems speak about *)
+    Bool.eqb ((1 <=? n) && (1 <=? i) && e) acc
+    && (negb acc || (res_eqb r1 ROk && res_eqb r2 RErrClosed))
+  | CCache limit n i h =>
+    if history_in_scope i h then (1 <=? n) && (1 <=? i) && client_ok i [] [] h else true
+  | CTrace n i segs =>
+    if segs_in_scope i segs
+    then trace_ok i [] (map fst segs)
+         (* every callback of the wheel is one invocation of that task, and vice versa *)
+         && forallb (fun s => zs_eqb (sort_z (map fst (snd (fst s)))) (sort_z (snd s))) segs
+    else true
+  end.
+
+Definition model_obs (c : case) : list fired :=
+  match c with
+  | CWheel n i ops _ => canon (map fst (arun (ainit n i) ops))
+  | CNew _ _ _ _ _ _ => []
+  | CCache limit n i h => canon (run (init n i) (concat (map (fun ob => otrace (snd ob)) h)))
+  | CTrace n i segs => canon (run (init n i) (concat (map (fun s => fst (fst s)) segs)))
+  end.
